@@ -200,6 +200,12 @@ def run_jobs(chk, jobs, label):
     chk.extra['drift'] = chk.extra.get('drift', 0) + drift
     chk.extra['not_begun'] = chk.extra.get('not_begun', 0) + notbegun
     chk.extra['how_each_ending_left_run'] = {k: sorted(v) for k, v in raised.items()}
+    # bookkeeping only: how often each caller flag state / -G variant was run
+    cnt = chk.extra.setdefault('caller_gc_debug_states_run', {})
+    for j in jobs:
+        key = '%s | -G %s' % ('+'.join(j['meta'].get('pre_debug') or ['0']),
+                              '+'.join(j['meta'].get('gbits') or ['-']))
+        cnt[key] = cnt.get(key, 0) + 1
     if notbegun > len(jobs) // 10:
         chk.machinery('%d of %d runs never reached the test phase' % (notbegun, len(jobs)))
 
@@ -269,7 +275,7 @@ def run(chk, tier, seed, replay=None):
     for k, (s, e) in enumerate(combos):
         jobs.append(make_job('g%d' % k, s, e, 'none', rng))
     # caller with its own trace / profile hooks (separate family: see known findings)
-    for k, (s, e) in enumerate(combos[::7 if tier == 'quick' else 3]):
+    for k, (s, e) in enumerate(combos[::7 if tier == 'quick' else 6]):
         jobs.append(make_job('h%d' % k, s, e, rng.choice(['both', 'sys']), rng))
     k = 0
     for s in (('coverage',), ('profile',), ('D',), ('coverage', 'profile', 'D'), tuple(OPTS)):
